@@ -23,9 +23,17 @@ pbkdf2_f = z3.Function("PBKDF2", z3.StringSort(), BytesSort, BytesSort, z3.IntSo
 DIGEST_LEN = {"sha1": 20, "sha256": 32}
 
 
+_hmac_names = {}
+
+
 def _hmac(state, algo, key, msg):
-    t = z3.Const(fresh_name("hmac_" + algo), BytesSort)       # named result (keeps later terms small)
-    state.assume(t == hmac_f(z3.StringVal(algo), key, msg))
+    """named result (keeps later terms small); the same application always gets the same name"""
+    app = hmac_f(z3.StringVal(algo), key, msg)
+    k = app.get_id()
+    if k not in _hmac_names:
+        _hmac_names[k] = (app, z3.Const(fresh_name("hmac_" + algo), BytesSort))
+    t = _hmac_names[k][1]
+    state.assume(t == app)
     state.assume(z3.Length(t) == DIGEST_LEN[algo])
     return t
 
